@@ -614,7 +614,11 @@ func (server *SugarDB) ZLexCount(key, min, max string) (int, error) {
 //
 // "value at <key> is not a sorted set" - when a key exists but is not a sorted set.
 func (server *SugarDB) ZPopMax(key string, count uint) ([][]string, error) {
-	b, err := server.handleCommand(server.context, internal.EncodeCommand([]string{"ZPOPMAX", key, strconv.Itoa(int(count))}), nil, false, true)
+	cmd := []string{"ZPOPMAX", key}
+	if count != 0 {
+		cmd = append(cmd, strconv.Itoa(int(count)))
+	}
+	b, err := server.handleCommand(server.context, internal.EncodeCommand(cmd), nil, false, true)
 	if err != nil {
 		return nil, err
 	}
@@ -638,7 +642,11 @@ func (server *SugarDB) ZPopMax(key string, count uint) ([][]string, error) {
 //
 // "value at <key> is not a sorted set" - when a key exists but is not a sorted set.
 func (server *SugarDB) ZPopMin(key string, count uint) ([][]string, error) {
-	b, err := server.handleCommand(server.context, internal.EncodeCommand([]string{"ZPOPMIN", key, strconv.Itoa(int(count))}), nil, false, true)
+	cmd := []string{"ZPOPMIN", key}
+	if count != 0 {
+		cmd = append(cmd, strconv.Itoa(int(count)))
+	}
+	b, err := server.handleCommand(server.context, internal.EncodeCommand(cmd), nil, false, true)
 	if err != nil {
 		return nil, err
 	}
